@@ -11,9 +11,12 @@ def run(ctx, ps, gen_bad):
                 # cold inode cache, a directory larger than the cache, stalled inode reads (slots recycled under a reader)
                 ('coldcache', 4, 8, 8),
                 # creates of one name while the first of them helps to finish a background free it was handed (after a hard stop)
-                ('allocretry', 3, 4, 8)]
+                ('allocretry', 3, 4, 8),
+                # steered interleavings: a call held between giving up and re-taking its locks while the name is re-bound /
+                # the directory replaced / the RENAME target removed
+                ('rmrebind', 3, 6, 3), ('staledir', 3, 6, 2), ('renamegone', 3, 6, 2)]
     else:
-        plan = [('names', 3, 7, 400), ('xrename', 3, 7, 300), ('data', 3, 7, 300), ('names', 4, 6, 200), ('data', 4, 6, 200), ('coldcache', 4, 12, 60), ('relock', 3, 6, 300), ('allocretry', 3, 4, 200)]
+        plan = [('names', 3, 7, 400), ('xrename', 3, 7, 300), ('data', 3, 7, 300), ('names', 4, 6, 200), ('data', 4, 6, 200), ('coldcache', 4, 12, 60), ('relock', 3, 6, 300), ('allocretry', 3, 4, 200), ('rmrebind', 3, 6, 60), ('staledir', 3, 6, 60), ('renamegone', 3, 6, 60)]
     return concengine.run(ctx, 'C03', plan, kinds={'lin', 'trace', 'panic', 'wf', 'tie'})
 
 
